@@ -385,3 +385,106 @@ func verifPathArrayRoundTrip(style PathStyle, explode bool, name string, items [
 	}
 	return NewPathDecoder(PathDecoderConfig{Param: name, Value: arg, Style: style, Explode: explode}).DecodeArray(f)
 }
+
+// ---------------------------------------------------------------------------
+// 4. Remaining rows of the style table (DESIGN Appendix F): objects in the path,
+//    query (as url.Values content), header, cookie — spec functions + harnesses.
+// ---------------------------------------------------------------------------
+
+// kv / field separators of the table for flat objects.
+func objSeps(loc string, style string, explode bool) (kv, fs string) {
+	if !explode {
+		return ",", ","
+	}
+	switch {
+	case loc == "path" && style == "label":
+		return "=", "."
+	case loc == "path" && style == "matrix":
+		return "=", ";"
+	default: // path simple, header simple (exploded)
+		return "=", ","
+	}
+}
+
+func fieldsHaveDelim(fs []Field, kv, fsep byte) bool {
+	return len(fs) > 0 && (containsB(fs[0].Name, kv) || containsB(fs[0].Value, fsep) || fieldsHaveDelim(fs[1:], kv, fsep))
+}
+
+// pairs / okPairs: what decodeObject delivers for s (alternating reads until kv, then fs).
+func okPairs(s string, kv, fs byte) bool {
+	k := indexB(s, kv)
+	if k < 0 {
+		return false // name without value: the value read hits an empty or absent remainder
+	}
+	rest := s[k+1:]
+	j := indexB(rest, fs)
+	if j < 0 {
+		return len(rest) > 0
+	}
+	return okPairs(rest[j+1:], kv, fs)
+}
+
+func pairs(s string, kv, fs byte) []Field {
+	k := indexB(s, kv)
+	if k < 0 {
+		return nil
+	}
+	rest := s[k+1:]
+	j := indexB(rest, fs)
+	if j < 0 {
+		return []Field{{Name: s[:k], Value: rest}}
+	}
+	return append([]Field{{Name: s[:k], Value: rest[:j]}}, pairs(rest[j+1:], kv, fs)...)
+}
+
+func kfTrailingEmptyField(fs []Field) bool { return len(fs) > 0 && fs[len(fs)-1].Value == "" }
+
+// Query rows, as the content of url.Values (key → values); "&"-joining and escaping are url.Values.Encode.
+func oasQueryArray(style QueryStyle, explode bool, name string, items []string) map[string][]string {
+	if explode {
+		return map[string][]string{name: items}
+	}
+	sep := ","
+	if style == QueryStylePipeDelimited {
+		sep = "|"
+	}
+	return map[string][]string{name: {joinB(items, sep)}}
+}
+
+func oasQueryObject(style QueryStyle, explode bool, name string, fs []Field) map[string][]string {
+	m := map[string][]string{}
+	switch {
+	case style == QueryStyleDeepObject:
+		for _, f := range fs {
+			m[name+"["+f.Name+"]"] = []string{f.Value}
+		}
+	case explode:
+		for _, f := range fs {
+			m[f.Name] = []string{f.Value}
+		}
+	default:
+		m[name] = []string{joinFields(fs, ",", ",")}
+	}
+	return m
+}
+
+// Header rows (simple style): the header value.
+func oasHeaderArray(items []string) string { return joinB(items, ",") }
+func oasHeaderObject(explode bool, fs []Field) string {
+	kv, fsep := objSeps("header", "simple", explode)
+	return joinFields(fs, kv, fsep)
+}
+
+// Cookie rows (form, explode=false for arrays/objects): the cookie value before escapeCookie.
+func oasCookieArray(items []string) string   { return joinB(items, ",") }
+func oasCookieObject(fs []Field) string      { return joinFields(fs, ",", ",") }
+
+//@ func decodeObject(cur *cursor, kvSep, fieldSep byte, f func(field, value string) error) (err error)
+//@   requires wfCursor(cur) && kvSep < 0x80 && fieldSep < 0x80
+//@   modifies cur.pos, log(f)
+//@   ensures ok:  allNil(results(f)) ==> (err == nil) == okPairs(rest, kvSep, fieldSep)
+//@   ensures log: err == nil ==> log(f) == old(log(f)) + pairs(rest, kvSep, fieldSep)
+//@   where rest := old(cur.src[cur.pos:])
+//@ lemma pairsOfJoin(fs []Field, kv, fsep byte)
+//@   requires len(fs) >= 1 && !fieldsHaveDelim(fs, kv, fsep) && (kv != fsep ==> namesFreeOf(fs, fsep)) && !kfTrailingEmptyField(fs)
+//@   ensures  okPairs(joinFields(fs, str1(kv), str1(fsep)), kv, fsep) && pairs(joinFields(fs, str1(kv), str1(fsep)), kv, fsep) == fs
